@@ -116,6 +116,7 @@ inductive Ev
   | req (now : Nat) (r : Req)
   | clearPage (p : Bytes) (q : Option Bytes)
   | clearAll
+  | evict (keep : Key → Bool)       -- the cache drops any entries it likes (capacity, its own housekeeping)
 
 def run (h : Handlers) (cfg : Cfg) : Store → List Ev → Store × List Reply
   | s, [] => (s, [])
@@ -125,18 +126,49 @@ def run (h : Handlers) (cfg : Cfg) : Store → List Ev → Store × List Reply
     (s'', rep :: reps)
   | s, .clearPage p q :: es => run h cfg (clearPage s p q) es
   | s, .clearAll :: es => run h cfg (clearAll s) es
+  | s, .evict keep :: es => run h cfg (s.filter fun e => keep e.1) es
 
 def reqs : List Ev → List Req
   | [] => []
   | .req _ r :: es => r :: reqs es
   | _ :: es => reqs es
 
+/-- whatever entries the cache drops on its own, what is left is part of what was there -/
+theorem evict_sub (s : Store) (keep : Key → Bool) : Sub (s.filter fun e => keep e.1) s := by
+  intro k e hk
+  unfold get at hk ⊢
+  induction s with
+  | nil => simp at hk
+  | cons a s ih =>
+    simp only [List.filter_cons] at hk
+    by_cases hka : keep a.1 = true
+    · rw [if_pos hka] at hk
+      simp only [List.find?_cons] at hk ⊢
+      by_cases hak : (a.1 == k) = true
+      · simpa [hak] using hk
+      · simp only [hak] at hk ⊢; exact ih hk
+    · rw [if_neg hka] at hk
+      simp only [List.find?_cons]
+      by_cases hak : (a.1 == k) = true
+      · -- the dropped entry had this key, so every entry with this key was dropped: nothing can be found
+        exfalso
+        obtain ⟨x, hx⟩ := Option.isSome_iff_exists.1 (by rw [Option.map_eq_some_iff] at hk; obtain ⟨y, hy, _⟩ := hk; rw [hy]; rfl :
+          (List.find? (fun e => e.1 == k) (s.filter fun e => keep e.1)).isSome = true)
+        have hxk := List.find?_some hx
+        have hxm := List.mem_of_find?_eq_some hx
+        have hkeep : keep x.1 = true := by simpa using (List.mem_filter.1 hxm).2
+        have e1 : x.1 = k := by simpa using hxk
+        have e2 : a.1 = k := by simpa using hak
+        rw [e1] at hkeep; rw [e2] at hka; exact hka hkeep
+      · simp only [hak]; exact ih hk
+
 /-- pointwise relation between two lists of equal length -/
 inductive AllPairs {α β : Type} (R : α → β → Prop) : List α → List β → Prop
   | nil : AllPairs R [] []
   | cons {a b as bs} : R a b → AllPairs R as bs → AllPairs R (a :: as) (b :: bs)
 
-/-- **for every history** (any sequence of requests, waits — the times are arbitrary — and clears): every reply
+/-- **for every history** (any sequence of requests, waits — the times are arbitrary —, clears, and evictions: the
+cache may drop any entries at any time, as `moka` does above its capacity): every reply
 is `304`, or is exactly what the uncached server would compute for that request, whether it was computed or
 served from the cache. -/
 theorem history_equals_uncached (h : Handlers) (hh : Honours h) (cfg : Cfg) :
@@ -173,5 +205,6 @@ theorem history_equals_uncached (h : Handlers) (hh : Honours h) (cfg : Cfg) :
         rw [this] at hrep; exact hrep.symm
     | clearPage p q => simp only [run, reqs]; exact ih _ (clear_coherent h s p q hc).1
     | clearAll => simp only [run, reqs]; exact ih _ (coh_empty h)
+    | evict keep => simp only [run, reqs]; exact ih _ (coh_sub (evict_sub s keep) hc)
 
 end Cache
